@@ -34,6 +34,33 @@ pub fn exec(func: &str, a: &mut Args) -> String {
                 Ok((v, t)) => format!("{} {} {} {}", v.len(), v.iter().map(d3::fp).collect::<Vec<_>>().join(" "), t.len(),
                     t.iter().map(|t| format!("{} {} {}", t[0], t[1], t[2])).collect::<Vec<_>>().join(" ")) } };
             format!("{} ;; {}", obs, out) }
+        // try_convex_hull followed by the maintainers' validator check_convex_hull on its result (same observed input as hull3m)
+        "hull3v" => { let n = a.u(); let pts: Vec<_> = (0..n).map(|_| d3::p(a)).collect();
+            if pts.len() < 3 { return "lowdim".into(); }
+            let mut np = pts.clone();
+            { let aabb = crate::p3::bounding_volume::details::local_point_cloud_aabb(&*np);
+                let diag = d3::na::distance(&aabb.mins, &aabb.maxs);
+                let center = aabb.center();
+                for c in np.iter_mut() { *c = (*c + (-center.coords)) / diag; } }
+            let eig = crate::p3::utils::cov(&np).symmetric_eigen();
+            let (evec, eval) = (eig.eigenvectors, eig.eigenvalues);
+            let obs = format!("{} {} {} {} {} {}", d3::hv(&evec.column(0).into_owned()), d3::hv(&evec.column(1).into_owned()), d3::hv(&evec.column(2).into_owned()),
+                hx(eval[0]), hx(eval[1]), hx(eval[2]));
+            let out = match std::panic::catch_unwind(std::panic::AssertUnwindSafe(|| try_convex_hull(&pts))) {
+                Err(_) => "hullpanic".to_string(),
+                Ok(Err(e)) => format!("err {:?}", e).replace(' ', "_").replacen("err_", "err ", 1),
+                Ok(Ok((v, t))) => {
+                    use std::io::Write; use std::os::unix::io::AsRawFd;
+                    extern "C" { fn dup(fd: i32) -> i32; fn dup2(a: i32, b: i32) -> i32; fn close(fd: i32) -> i32; }
+                    let _ = std::io::stdout().flush();
+                    let null = std::fs::OpenOptions::new().write(true).open("/dev/null").expect("devnull");
+                    let saved = unsafe { dup(1) };
+                    unsafe { dup2(null.as_raw_fd(), 1); }
+                    let res = std::panic::catch_unwind(std::panic::AssertUnwindSafe(|| crate::p3::transformation::check_convex_hull(&v, &t)));
+                    let _ = std::io::stdout().flush();
+                    unsafe { dup2(saved, 1); close(saved); }
+                    if res.is_ok() { "ok".into() } else { "panic".into() } } };
+            format!("{} ;; {}", obs, out) }
         "hull3" => { let n = a.u(); let pts: Vec<_> = (0..n).map(|_| d3::p(a)).collect();
             match try_convex_hull(&pts) {
                 Err(e) => format!("err {:?}", e).replace(' ', "_").replacen("err_", "err ", 1),
@@ -59,8 +86,128 @@ pub fn exec(func: &str, a: &mut Args) -> String {
         "polymesh" => { let n = a.u(); let pts: Vec<_> = (0..n).map(|_| d3::p(a)).collect();
             let m = a.u(); let tris: Vec<[u32; 3]> = (0..m).map(|_| [a.u() as u32, a.u() as u32, a.u() as u32]).collect();
             match crate::p3::shape::ConvexPolyhedron::from_convex_mesh(pts, &tris) { None => "none".into(), Some(p) => dump_poly(&p) } }
+        // utils::remove_unused_points (public; the last step of try_convex_hull) on an arbitrary index buffer
+        "remove_unused" => { let n = a.u(); let mut pts: Vec<_> = (0..n).map(|_| d3::p(a)).collect();
+            let m = a.u(); let mut tris: Vec<[u32; 3]> = (0..m).map(|_| [a.u() as u32, a.u() as u32, a.u() as u32]).collect();
+            crate::p3::utils::remove_unused_points(&mut pts, &mut tris[..]);
+            format!("{} {} {} {}", pts.len(), pts.iter().map(d3::fp).collect::<Vec<_>>().join(" "), tris.len(),
+                tris.iter().map(|t| format!("{} {} {}", t[0], t[1], t[2])).collect::<Vec<_>>().join(" ")).replace("  ", " ").trim().to_string() }
+        // the maintainers' validator transformation::check_convex_hull (returns () or panics).  Its duplicate-point branch
+        // println!s to stdout, which carries the harness protocol: stdout is flushed and sent to /dev/null around the call.
+        "validate3" => { let n = a.u(); let pts: Vec<_> = (0..n).map(|_| d3::p(a)).collect();
+            let m = a.u(); let tris: Vec<[u32; 3]> = (0..m).map(|_| [a.u() as u32, a.u() as u32, a.u() as u32]).collect();
+            use std::io::Write; use std::os::unix::io::AsRawFd;
+            extern "C" { fn dup(fd: i32) -> i32; fn dup2(a: i32, b: i32) -> i32; fn close(fd: i32) -> i32; }
+            let _ = std::io::stdout().flush();
+            let null = std::fs::OpenOptions::new().write(true).open("/dev/null").expect("devnull");
+            let saved = unsafe { dup(1) };
+            unsafe { dup2(null.as_raw_fd(), 1); }
+            let res = std::panic::catch_unwind(std::panic::AssertUnwindSafe(|| crate::p3::transformation::check_convex_hull(&pts, &tris)));
+            let _ = std::io::stdout().flush();
+            unsafe { dup2(saved, 1); close(saved); }
+            if res.is_ok() { "ok".into() } else { "panic".into() } }
         _ => "nofn".into(),
     }
+}
+
+/// a closed triangulated torus (`k x l` grid, Euler characteristic 0): closed 2-manifold that the validator must reject
+fn torus_mesh(k: usize, l: usize) -> (Vec<P3>, Vec<[u32; 3]>) {
+    let mut pts = Vec::new(); let mut tris = Vec::new();
+    for i in 0..k { for j in 0..l {
+        let (u, w) = (i as f64 / k as f64 * std::f64::consts::TAU, j as f64 / l as f64 * std::f64::consts::TAU);
+        pts.push(P3::new((2.0 + w.cos()) * u.cos(), (2.0 + w.cos()) * u.sin(), w.sin())); } }
+    let id = |i: usize, j: usize| ((i % k) * l + (j % l)) as u32;
+    for i in 0..k { for j in 0..l {
+        tris.push([id(i, j), id(i + 1, j), id(i + 1, j + 1)]); tris.push([id(i, j), id(i + 1, j + 1), id(i, j + 1)]); } }
+    (pts, tris)
+}
+
+/// inputs for `validate3`: a base mesh (hull of a cloud from the hull families, an explicit closed mesh, a tetrahedron) and one
+/// mutation.  0 none, 1 one point moved onto another (duplicate, counts unchanged; sometimes `-0.0` against `0.0`), 2 a triangle
+/// removed (open edges), 3 a triangle listed twice (edge with 4 sides), 4 a repeated index in a triangle, 5 an extra unused point
+/// (Euler 3), 6 one triangle flipped (the validator is orientation-blind: accepted), 7 two disjoint copies (Euler 4),
+/// 8 triangles shuffled and their indices rotated (accepted), 9 a torus (closed, Euler 0), 10 tiny buffers (0..2 points, 0..1 triangles),
+/// 11 a fan triangle re-glued: a triangle replaced by one sharing an already full edge (t-junction + open edge),
+/// 12 a triangle removed AND an isolated point added (open edges with Euler 2: only the "unfinished triangle" test can reject),
+/// 13 a triangle replaced by a copy of another one (same V, F, E: Euler 2; t-junction and open edges),
+/// 14 a torus plus two "pillows" (two opposite triangles over an existing edge and a new point): every side in 2 or 4 triangles,
+///    Euler 2, no open edge: only the t-junction test can reject
+fn validate_case(r: &mut Rng, fam: u64) -> (Vec<P3>, Vec<[u32; 3]>) {
+    let base = |r: &mut Rng| -> (Vec<P3>, Vec<[u32; 3]>) {
+        for _ in 0..8 {
+            let cloud = match r.below(4) { 0 => solid3(r), 1 => merged_solid(r), 2 => { let n = 4 + r.below(40) as usize; cloud3(r, 2, n) } _ => { let n = 4 + r.below(30) as usize; cloud3(r, 1, n) } };
+            // (the generator must survive a hull that panics: the case then falls back to the next cloud / the tetrahedron)
+            if let Ok(Ok((v, t))) = std::panic::catch_unwind(std::panic::AssertUnwindSafe(|| try_convex_hull(&cloud))) { if t.len() >= 4 && v.len() >= 4 { return (v, t); } }
+        }
+        (vec![P3::new(0.0, 0.0, 0.0), P3::new(1.0, 0.0, 0.0), P3::new(0.0, 1.0, 0.0), P3::new(0.0, 0.0, 1.0)], vec![[0, 2, 1], [0, 1, 3], [1, 2, 3], [2, 0, 3]])
+    };
+    if fam == 9 { return torus_mesh(3 + r.below(4) as usize, 3 + r.below(4) as usize); }
+    if fam == 14 {
+        let (mut p, mut t) = torus_mesh(3 + r.below(3) as usize, 3 + r.below(3) as usize);
+        for q in 0..2 { let k = r.below(t.len() as u64 - 4) as usize; let (a, b) = (t[k][q], t[k][q + 1]); let d = p.len() as u32;
+            p.push(P3::new(10.0 + q as f64, 0.5, -0.25)); t.push([a, b, d]); t.push([b, a, d]); }
+        return (p, t);
+    }
+    if fam == 10 {
+        let n = r.below(3) as usize; let pts: Vec<P3> = (0..n).map(|i| P3::new(i as f64, 1.0, -2.0)).collect();
+        let tris = if r.bool() && n > 0 { vec![[0, (n as u32 - 1).min(1), 2]] } else { vec![] };
+        return (pts, tris);
+    }
+    let (mut pts, mut tris) = base(r);
+    let nt = tris.len() as u64; let np = pts.len() as u64;
+    match fam {
+        1 => { let i = r.below(np) as usize; let j = (i + 1 + r.below(np - 1) as usize) % np as usize;
+               if r.below(3) == 0 { pts[i] = P3::new(0.0, 1.0, 2.0); pts[j] = P3::new(-0.0, 1.0, 2.0); } else { pts[j] = pts[i]; } }
+        2 => { let k = r.below(nt) as usize; tris.remove(k); }
+        3 => { let k = r.below(nt) as usize; let t = tris[k]; let at = r.below(nt + 1) as usize; tris.insert(at, t); }
+        4 => { let k = r.below(nt) as usize; let c = r.below(3) as usize; tris[k][c] = tris[k][(c + 1) % 3]; }
+        5 => { pts.push(P3::new(7.5, -3.25, 11.0)); }
+        6 => { let k = r.below(nt) as usize; tris[k].swap(1, 2); }
+        7 => { let off = pts.len() as u32; let p2: Vec<P3> = pts.iter().map(|p| P3::new(p.x + 1000.0, p.y, p.z)).collect();
+               let t2: Vec<[u32; 3]> = tris.iter().map(|t| [t[0] + off, t[1] + off, t[2] + off]).collect(); pts.extend(p2); tris.extend(t2); }
+        8 => { shuffle(r, &mut tris); for t in tris.iter_mut() { let k = r.below(3) as usize; t.rotate_left(k); } }
+        12 => { let k = r.below(nt) as usize; tris.remove(k); pts.push(P3::new(7.5, -3.25, 11.0)); }
+        13 => { let k = r.below(nt) as usize; let k2 = (k + 1 + r.below(nt - 1) as usize) % nt as usize; tris[k] = tris[k2]; }
+        11 => { let k = r.below(nt) as usize; let k2 = (k + 1 + r.below(nt - 1) as usize) % nt as usize; let o = tris[k2];
+                let far = (0..np as u32).find(|v| !o.contains(v)).unwrap_or(0); tris[k] = [o[0], o[1], far]; }
+        _ => {}
+    }
+    (pts, tris)
+}
+
+/// index buffers for `remove_unused`: which of the `n` points are referenced decides the path through the `swap_remove` loop
+/// (family 0 random subset, 1 only a prefix used (the tail is popped, `i == len` pops), 2 only a suffix used (every kept point
+/// is moved), 3 every other point, 4 all used, 5 one triangle, 6 empty buffer, 7 unused runs of random lengths, 8 repeated
+/// indices inside a triangle, 9 one index out of range (documented index panic; outside the domain))
+fn unused_case(r: &mut Rng, fam: u64) -> (Vec<P3>, Vec<[u32; 3]>) {
+    let nmax = if r.below(6) == 0 { 60 } else { 14 };
+    let n = 1 + r.below(nmax) as usize;
+    let lat = r.bool();
+    let mut pts: Vec<P3> = (0..n).map(|_| d3::gen_p(r, lat, 2.0)).collect();
+    if r.below(4) == 0 && n > 1 { let k = r.below(n as u64) as usize; pts[k] = pts[0]; }          // duplicated coordinates
+    let pool: Vec<u32> = match fam {
+        1 => (0..(1 + r.below(n as u64)) as u32).collect(),
+        2 => { let k = r.below(n as u64) as u32; (k..n as u32).collect() }
+        3 => (0..n as u32).filter(|i| i % 2 == (n as u32 % 2)).collect(),
+        4 | 8 | 9 => (0..n as u32).collect(),
+        7 => { let mut v = Vec::new(); let mut i = 0u32; let mut on = r.bool();
+               while (i as usize) < n { let len = 1 + r.below(4) as u32; if on { for k in i..(i + len).min(n as u32) { v.push(k); } } i += len; on = !on; } v }
+        _ => { let mut v = Vec::new(); for i in 0..n as u32 { if r.below(3) != 0 { v.push(i); } } v }
+    };
+    let mut tris: Vec<[u32; 3]> = Vec::new();
+    if fam != 6 && !pool.is_empty() {
+        if fam == 5 { tris.push([*r.pick(&pool), *r.pick(&pool), *r.pick(&pool)]); }
+        else {
+            // every pool index at least once (so that the used set is exactly the pool), then random extra triangles
+            let mut order = pool.clone(); shuffle(r, &mut order);
+            for c in order.chunks(3) { tris.push([c[0], c[c.len() / 2], c[c.len() - 1]]); }
+            for _ in 0..r.below(6) { tris.push([*r.pick(&pool), *r.pick(&pool), *r.pick(&pool)]); }
+            shuffle(r, &mut tris);
+        }
+    }
+    if fam == 8 { for t in tris.iter_mut() { if r.bool() { t[1] = t[0]; } } }
+    if fam == 9 && !tris.is_empty() { let k = r.below(tris.len() as u64) as usize; tris[k][r.below(3) as usize] = n as u32 + r.below(3) as u32; }
+    (pts, tris)
 }
 
 /// `P np pts… F nf {first num nx ny nz}… E ne {v0 v1 f0 f1 dx dy dz}… V nv {first num}… VF n ids… EF n ids… FV n ids…
@@ -403,6 +550,42 @@ pub fn gen(r: &mut Rng, thorough: bool) -> Vec<(String, String)> {
         let cloud = if ms { multiscale_cloud(r) } else { rotated_face_cloud(r) };
         if ms { v.push(("hull3".into(), fmt3(&cloud))); }
         v.push(("hull3m".into(), fmt3(&cloud)));
+    }
+    // fu5: remove_unused_points on arbitrary index buffers (appended so that the stream above is unchanged)
+    let m5 = if thorough { 1500 } else { 300 };
+    let mut fam_count = [0usize; 10];
+    for it in 0..m5 {
+        let fam = if it % 25 == 24 { 9 } else { (it % 9) as u64 };
+        fam_count[fam as usize] += 1;
+        let (p, t) = unused_case(r, fam);
+        v.push(("remove_unused".into(), format!("{} {} {}", fmt3(&p), t.len(), t.iter().map(|t| format!("{} {} {}", t[0], t[1], t[2])).collect::<Vec<_>>().join(" ")).trim().to_string()));
+    }
+    if std::env::var("VERIF_DBG").is_ok() { eprintln!("C12 remove_unused families 0..9: {:?}", fam_count); }
+    // fu5: the maintainers' validator on valid hull meshes and on single mutations of them
+    let m6 = if thorough { 1200 } else { 300 };
+    let mut vfam = [0usize; 15];
+    for it in 0..m6 {
+        let fam = (it % 15) as u64;
+        vfam[fam as usize] += 1;
+        let (p, t) = validate_case(r, fam);
+        v.push(("validate3".into(), format!("{} {} {}", fmt3(&p), t.len(), t.iter().map(|t| format!("{} {} {}", t[0], t[1], t[2])).collect::<Vec<_>>().join(" ")).replace("  ", " ").trim().to_string()));
+    }
+    if std::env::var("VERIF_DBG").is_ok() { eprintln!("C12 validate3 families 0..14: {:?}", vfam); }
+    // fu5: every hull must pass the maintainers' validator (clouds from all the 3-D families, incl. duplicates, coplanar subsets, slabs)
+    let m7 = if thorough { 600 } else { 150 };
+    for it in 0..m7 {
+        let base = match it % 8 {
+            0 => bumpy_cube(r),
+            1 => { let np3 = 4 + r.below(60) as usize; cloud3(r, 2, np3) }
+            2 => { let np3 = 4 + r.below(80) as usize; cloud3(r, 1, np3) }
+            3 => { let k3 = r.below(6); let np3 = 4 + r.below(60) as usize; cloud3(r, k3, np3) }
+            4 => solid3(r),
+            5 => merged_solid(r),
+            6 => { let np3 = 4 + r.below(30) as usize; let mut p = cloud3(r, 2, np3); let d = p.clone(); p.extend(d); shuffle(r, &mut p); p }
+            _ => if it % 16 == 7 { multiscale_cloud(r) } else { rotated_face_cloud(r) },
+        };
+        let cloud = if it % 3 == 0 { base } else { let exact = r.bool(); similarity(r, &base, exact) };
+        v.push(("hull3v".into(), fmt3(&cloud)));
     }
     v
 }
